@@ -4,10 +4,23 @@ from . import ALL_MODES, T1_CAL, TICK, CAL_LEMMAS
 ID = "C05"
 LEVEL = "proof"
 MODES = ALL_MODES
-FUNCS = ["data:TimePoint.add_months", ("data:TimePoint.__add__", r"\+years$"),
+FUNCS = ["data:TimePoint.add_months", ("data:TimePoint.__add__", r"\+(years$|mixed:)"),
          "ghost:single_month_step", "ghost:months_compose",
          "ghost:leap_day_plus_year"] + T1_CAL + TICK
-LEMMAS = CAL_LEMMAS
+LEMMAS = CAL_LEMMAS + ["week.key.order", "day.floor"]
+
+
+def _quick_add(name):
+    """Quick tier: pure year steps, and the mixed-duration cases for h:m:s points with the
+    covering component subsets (thorough: all 48 subsets x 9 shapes)."""
+    if "+mixed:" not in name:
+        return True
+    from contracts.timepoint_t2 import MIX_QUICK
+    shape, present = name.split("+mixed:")
+    return shape.endswith("-hms") and present in MIX_QUICK
+
+
+QUICK_FILTER = {"data:TimePoint.__add__": _quick_add}
 CANARIES = ["canary.dby.step.wrong"]
 EXPLANATION = (
     "add_months: for calendar-form points the month index is exactly n away and the day "
@@ -16,15 +29,25 @@ EXPLANATION = (
     "single step gives min(d, len(target)) and (n+1) months == n months then 1 month are "
     "ghost programs over that contract. Ordinal/week forms: representation, validity, "
     "time of day and zone are proved; their date goes through to_calendar_date / "
-    "to_ordinal_date / to_week_date, whose conversions are proved under C03. Year steps: "
+    "to_ordinal_date / to_week_date, whose conversions are proved under C03, and the result "
+    "is stated as a day number: for THE calendar triple (gy, gm, gd) of self's day "
+    "(universally quantified ghost constants, unique by the key-order lemmas) the result's "
+    "day is (month index + n, running-minimum day). Mixed durations (TimePoint.__add__ on a "
+    "unit-form Duration whose present components are symbolic and non-zero, one case per "
+    "subset of {s, min, h, d, months, years} containing months or years): the result is "
+    "the year step of the month step of the exact step - exact part first (day = "
+    "date(self) + floor((second-of-day + exact length)/86400), time of day the remainder), "
+    "then months (running-minimum clamp), then years (clamp of day-of-month / day-of-year "
+    "/ week to the target year) - for calendar, ordinal and week forms. Year steps: "
     "year' = year + n with day-of-month / day-of-year / week clamped to the target year, "
     "for all three representations. Time of day is required normal (not 24:00).")
 ASSUMPTIONS = [
     "runmin is an uninterpreted function defined by its two recursive equations, "
     "instantiated where needed (definitional, always true)",
-    "mixed durations (exact part first, then months, then years): the order is that of "
-    "the statements of __add__, each step verified separately; the composed identity is "
-    "not a generated obligation",
+    "mixed durations: proved for unit-form durations per subset of present (non-zero) "
+    "components; quick tier: 6 covering subsets on h:m:s points, thorough: all 48 subsets x "
+    "3 representations x 3 precision forms; 24:00 operands excluded (add_months' "
+    "precondition)",
     "24:00 inputs are excluded from add_months' contract (its final tick-over normalises "
     "them to the next day)"]
 LEVEL_TEXT = ("Proof by loop invariant for unbounded month counts and years of either sign, "
